@@ -397,9 +397,131 @@ func c17RegisterRace(c *core.Ctx, idx int) {
 	rec.NonTrivial(core.Hash64("regrace", fmt.Sprint(idx)))
 }
 
+// Types the library has no codec for until one is registered: unsupported kinds, and a supported
+// type under a tag name nobody has registered yet
+type (
+	LateArr [4]byte
+	LateCx  complex128
+	LateFn  func()
+)
+
+// c17LateRegistration: a definition is turned away because one of its parts has no codec; the caller
+// then registers a codec for that part. From then on the registration is what every definition
+// around it uses - the very definitions that failed before included - and an instance without
+// the registration still turns them away (round 11: q17).
+func c17LateRegistration(c *core.Ctx, idx int) {
+	rec := c.Rec
+	r := c.Rand(idx)
+	mk := func() *plenc.Plenc {
+		p := &plenc.Plenc{ProtoCompatibleArrays: r.IntN(2) == 0, ProtoCompatibleTime: r.IntN(2) == 0}
+		p.RegisterDefaultCodecs()
+		return p
+	}
+	with, without := mk(), mk()
+	usePkg := false
+	part := []reflect.Type{reflect.TypeOf(LateArr{}), reflect.TypeOf(LateCx(0)), reflect.TypeOf(LateFn(nil)), markedT}[r.IntN(4)]
+	tag := ""
+	if part == markedT {
+		tag = []string{"late", "x", "flat", "proto"}[r.IntN(4)] // no codec under that tag name until it is registered
+	}
+	ftag := `plenc:"2"`
+	if tag != "" {
+		ftag = fmt.Sprintf(`plenc:"2,%s"`, tag)
+	}
+	holder := structOf(sf("A", tInt, `plenc:"1"`), sf("X", part, ftag))
+	pholder := structOf(sf("A", tInt, `plenc:"1"`), sf("X", reflect.PointerTo(part), ftag))
+	defs := []reflect.Type{holder, pholder, reflect.SliceOf(holder), reflect.MapOf(tString, holder), reflect.PointerTo(holder),
+		structOf(sf("H", holder, `plenc:"3"`), sf("B", tString, `plenc:"4"`)), structOf(sf("HS", reflect.SliceOf(reflect.PointerTo(holder)), `plenc:"1"`))}
+	if tag == "" {
+		defs = append(defs, reflect.SliceOf(part), reflect.MapOf(tString, part), reflect.MapOf(tInt, reflect.PointerTo(part)), part)
+	}
+	r.Shuffle(len(defs), func(i, j int) { defs[i], defs[j] = defs[j], defs[i] })
+	nfail := 1 + r.IntN(len(defs))
+	mkv := func(t reflect.Type) reflect.Value {
+		v := reflect.New(t)
+		fillPresent(v.Elem(), r)
+		return v
+	}
+	desc := func(t reflect.Type) string {
+		return fmt.Sprintf("%s (the part without a codec at first: %s, tag option %q)", typeString(t), part, tag)
+	}
+	// 1. before the registration: an error, from whichever entry point
+	for _, t := range defs[:nfail] {
+		var err error
+		var pn string
+		switch r.IntN(3) {
+		case 0:
+			pn = core.Guard(func() { _, err = with.CodecForType(t) })
+		case 1:
+			_, err, pn = marshal(with, nil, mkv(t).Interface())
+		default:
+			err, pn = unmarshal(with, []byte{}, reflect.New(t).Interface())
+		}
+		rec.Eval(1)
+		if pn != "" {
+			rec.Violation("codec-panic", "a definition with a part that has no codec panics "+desc(t)+"\n"+pn, nil)
+			return
+		}
+		if err == nil {
+			// (not this property's business whether it must be turned away; but then there is nothing to learn here)
+			rec.Count("late_registration_part_accepted_unregistered", 1)
+			return
+		}
+	}
+	// 2. the registration
+	id := byte(1 + r.IntN(200))
+	mc := markerCodec{id: id, typ: part}
+	if tag == "" {
+		with.RegisterCodec(part, mc)
+	} else {
+		with.RegisterCodecWithTag(part, tag, mc)
+	}
+	body := []byte{0xEE, id, 0xEE}
+	// 3. every definition, those that failed included, now uses it
+	r.Shuffle(len(defs), func(i, j int) { defs[i], defs[j] = defs[j], defs[i] })
+	for _, t := range defs {
+		if t.Kind() == reflect.Ptr || (with.ProtoCompatibleArrays && t.Kind() == reflect.Slice) {
+			continue // (top-level pointers add nothing; D25)
+		}
+		v := mkv(t)
+		got, err, pn := marshal(with, nil, v.Interface())
+		rec.Eval(1)
+		if err != nil || pn != "" {
+			rec.Violation("registration-ignored", fmt.Sprintf("a codec was registered for a part after definitions around it had been turned away for want of it; Marshal of %s still fails: %v %s", desc(t), err, trunc1(pn)), nil)
+			return
+		}
+		if !bytes.Contains(got, body) {
+			rec.Violation("registration-ignored", fmt.Sprintf("the codec registered late is not the one used in %s: output %x does not hold its mark %x", desc(t), got, body), nil)
+			return
+		}
+		back := reflect.New(t)
+		if err, pn := unmarshal(with, got, back.Interface()); err != nil || pn != "" {
+			rec.Violation("registration-ignored", fmt.Sprintf("Unmarshal of what the late registration wrote fails for %s: %v %s\n  bytes %x", desc(t), err, trunc1(pn), got), nil)
+			return
+		}
+	}
+	// 4. the other instance knows nothing of it
+	for _, t := range defs[:2] {
+		var err error
+		pn := core.Guard(func() { _, err = without.CodecForType(t) })
+		rec.Eval(1)
+		if pn != "" || err == nil {
+			rec.Violation("instance-leak", fmt.Sprintf("an instance without the registration accepts %s (%s)", desc(t), trunc1(pn)), nil)
+			return
+		}
+	}
+	_ = usePkg
+	rec.Count("late_registrations", 1)
+	rec.NonTrivial(core.Hash64("late", part.String(), tag, fmt.Sprint(idx)))
+}
+
 func c17Case(c *core.Ctx, idx int) {
 	if c.Lane == "firstuse" {
 		c17FirstUse(c, idx)
+		return
+	}
+	if idx%7 == 3 {
+		c17LateRegistration(c, idx)
 		return
 	}
 	if idx%11 == 5 {
